@@ -19,10 +19,28 @@ package index
 
 //@ func (*InsertionIndex).HasExactCID
 //@   trusted
+//@   closure[0]
+//@     assume tree_holds_record_digests: typeis(i, "v2/index.recordDigest")
+//@     let samedig := call[bytes.Equal#0]
+//@     call[bytes.Equal#0] assert compares_digest_with_the_keys_digest [C04]: ref(arg1) == ref(entry.digest)
+//@     ensures stops_after_the_digest_run [C04]: !samedig ==> result == false && found == old(found)
+//@     ensures exact_match_sets_found [C04]: samedig && existing.Record.Cid == c ==> found && result == false
+//@     ensures other_cid_same_digest_continues [C04]: samedig && existing.Record.Cid != c ==> result == true && found == old(found)
+//@   end
 //@   ensures def: err == nil && result0 == byCid(ii, c)
 
 //@ func (*InsertionIndex).HasMultihash
 //@   trusted
+//@   closure[0]
+//@     assume tree_holds_record_digests: typeis(i, "v2/index.recordDigest")
+//@     let samedig := call[bytes.Equal#0]
+//@     let samemh := call[bytes.Equal#1]
+//@     call[bytes.Equal#0] assert compares_digest_with_the_keys_digest [C04]: ref(arg1) == ref(entry.digest)
+//@     call[bytes.Equal#1] assert compares_multihash_with_the_key [C04]: ref(arg1) == ref(mh)
+//@     ensures stops_after_the_digest_run [C04]: !samedig ==> result == false && found == old(found)
+//@     ensures match_sets_found [C04]: samedig && samemh ==> found && result == false
+//@     ensures other_multihash_same_digest_continues [C04]: samedig && !samemh ==> result == true && found == old(found)
+//@   end
 //@   ensures def: err == nil && result0 == byMh(ii, bytesval(mh))
 
 //@ func (*InsertionIndex).Get
